@@ -126,6 +126,112 @@ def run_file_simple(pid, what_list):
     return run
 
 
+# ----------------------------------------------------------------------------
+# directory family
+
+DIR_INVS = {
+    "C02": ["Inv_Harness_WF", "Inv_NoPanic", "Inv_C02_Stored", "Inv_C02_Open", "Inv_C02_Lookup", "Inv_C02_Iter", "Inv_C02_Length"],
+    "C08": ["Inv_Harness_WF", "Inv_NoPanic", "Inv_C08_Canon", "Inv_C08_RefEq", "Inv_C02_Stored", "Inv_C02_Open", "Inv_C02_Lookup",
+            "Inv_C02_Iter", "Inv_C02_Length"],
+    "C05": ["Inv_Harness_WF", "Inv_NoPanic", "Inv_C05_Lookup", "Inv_C05_Open", "Inv_C05_NoEntryLoads"],
+    "C06": ["Inv_Harness_WF", "Inv_NoPanic", "Inv_C06_Preload", "Inv_C05_NoEntryLoads"],
+    "C12": ["Inv_Harness_WF", "Inv_NoPanic", "Inv_C12_Lookup", "Inv_C12_Iter", "Inv_C12_IterTerminates"],
+    "C15": ["Inv_Harness_WF", "Inv_NoPanic", "Inv_C15_Iter", "Inv_C15_Length", "Inv_C15_Lookup"],
+    "C20": ["Inv_Harness_WF", "Inv_NoPanic", "Inv_C20_Order", "Inv_C20_Complete"],
+}
+
+
+def cfg_hamtbuild(maxfail=3):
+    return ("SPECIFICATION Spec\nCONSTANTS\n  Univ <- MCUniv\n  Dig <- MCDig\n  MaxFail = %d\n"
+            "INVARIANTS Inv_C08_Canon Inv_C02_Map Inv_C16_NoDangling Inv_C16_Result Inv_C10_Deterministic\n"
+            "PROPERTIES Terminates\nCHECK_DEADLOCK FALSE\n") % maxfail
+
+
+def cfg_hamtread(maxops=2):
+    return ("SPECIFICATION Spec\nCONSTANTS\n  Univ <- MCUniv\n  Dig <- MCDig\n  MaxOps = %d\n"
+            "INVARIANTS Inv_C02_Lookup Inv_C05_LookupLoads Inv_C12_Lookup Inv_C12_Iterate Inv_C20_IterOrder\n"
+            "CHECK_DEADLOCK FALSE\n") % maxops
+
+
+def cfg_hamtref(depth, export=True):
+    return ("SPECIFICATION Spec\nCONSTANTS\n  Univ <- MCUniv5\n  Dig <- MCDig\n  Depth = %d\n"
+            "INVARIANTS Inv_C08_Entries Inv_C08_Canon Inv_C08_Lookup%s\nCHECK_DEADLOCK FALSE\n") % (depth, " Export" if export else "")
+
+
+FAN_Q = "8,16,256,1024"
+FAN_T = "8,16,32,64,128,256,512,1024"
+
+
+def dgen(ctx, b, what, fanouts=None, extra=()):
+    args = ["dir-gen", "-what", what, "-seed", ctx.seed]
+    if fanouts:
+        args += ["-fanouts", fanouts]
+    return gen(ctx, b, "dir_" + what + "_" + str(len(ctx.mc_runs)) + "_" + str(abs(hash((fanouts, tuple(extra)))) % 10000), args + list(extra))
+
+
+def run_C02(ctx):
+    b = vlib.build_harness()
+    q = ctx.quick
+    vlib.model_check(ctx, "MCHamtBuild", cfg_hamtbuild(0), name="MCHamtBuild")
+    vlib.model_check(ctx, "MCHamtRead", cfg_hamtread(2), name="MCHamtRead")
+    t = [dgen(ctx, b, "sets", FAN_Q if q else FAN_T, ["-orders", 4 if q else 24]),
+         dgen(ctx, b, "random", None, ["-count", 60 if q else 800]),
+         dgen(ctx, b, "big", None, ["-count", 4 if q else 30])]
+    ctx.exhaustive = True
+    decide(ctx, b, "TraceDir", DIR_INVS["C02"] + ["Inv_C02_Big"], t)
+
+
+def run_C08(ctx):
+    b = vlib.build_harness()
+    q = ctx.quick
+    vlib.model_check(ctx, "MCHamtBuild", cfg_hamtbuild(0), name="MCHamtBuild")
+    r = vlib.model_check(ctx, "MCHamtRef", cfg_hamtref(4 if q else 5), name="MCHamtRef", want_cases=True)
+    cases = r["cases"]
+    if q:
+        cases = cases[:: max(1, len(cases) // 1500)]
+    casefile = ctx.path("hamt_hist.jsonl")
+    open(casefile, "w").write("\n".join(cases) + "\n")
+    ctx.extra["tlc_histories_exported"] = len(r["cases"])
+    ctx.extra["tlc_histories_replayed"] = len(cases)
+    t = [dgen(ctx, b, "sets", FAN_Q if q else FAN_T, ["-orders", 2 if q else 6]),
+         dgen(ctx, b, "boxo", FAN_Q if q else FAN_T),
+         dgen(ctx, b, "hist", "8,16,256" if q else FAN_T, ["-cases", casefile]),
+         dgen(ctx, b, "random", None, ["-count", 40 if q else 600])]
+    ctx.exhaustive = True
+    decide(ctx, b, "TraceDir", DIR_INVS["C08"], t)
+
+
+def run_C15(ctx):
+    b = vlib.build_harness()
+    q = ctx.quick
+    vlib.model_check(ctx, "MCHamtRead", cfg_hamtread(2), name="MCHamtRead")
+    t = [dgen(ctx, b, "raw", None, ["-maxlen", 3 if q else 4]),
+         dgen(ctx, b, "sets", "8,256" if q else FAN_T, ["-orders", 1]),
+         dgen(ctx, b, "boxo", "8,256" if q else FAN_T)]
+    ctx.exhaustive = True
+    decide(ctx, b, "TraceDir", DIR_INVS["C15"], t)
+
+
+def run_mixed(pid, file_gens, dir_gens):
+    """Properties decided on both the file and the directory family."""
+    def run(ctx):
+        b = vlib.build_harness()
+        q = ctx.quick
+        vlib.model_check(ctx, "MCFileRead", cfg_fileread(5, 2, 3, 2, 2, readers=(1,), export=False), name="MCFileRead_contract")
+        vlib.model_check(ctx, "MCFileRead", cfg_fileread(5, 2, 3, 2, 3, readers=(1,), missing=(4,), export=False),
+                         name="MCFileRead_missing4")
+        vlib.model_check(ctx, "MCHamtRead", cfg_hamtread(2), name="MCHamtRead")
+        ft, dt = [], []
+        for what, qa, ta in file_gens:
+            ft.append(gen(ctx, b, "file_" + what, ["file-gen", "-what", what] + (qa if q else ta) + ["-seed", ctx.seed]))
+        for what, qa, ta in dir_gens:
+            dt.append(dgen(ctx, b, what, qa if q else ta))
+        ctx.exhaustive = True
+        decide(ctx, b, "TraceFile", FILE_INVS[pid], ft)
+        decide(ctx, b, "TraceDir", DIR_INVS[pid], dt)
+    return run
+
+
 def finish(ctx, plan):
     vlib.write_evidence(ctx, LEVEL, plan["rule"], ASSUME_COMMON + plan.get("assume", []))
 
@@ -166,28 +272,69 @@ def P(run, text, rule=None, technique=TECH_FILE, note=NOTE_FILE, **kw):
 
 NOT_YET = {}
 
+TECH_DIR = ("explicit TLA+ spec (HamtOps/HamtBuild/HamtRef/HamtRead) model-checked by TLC; enumerated entry sets with mined "
+            "hash-colliding names and TLC-exported mutation histories run on the real library; every recorded execution "
+            "validated by TLC against TraceDir.tla, whose expectations are the spec's operators evaluated on the stored structure")
+TECH_MIX = TECH_FILE + "; and for sharded directories: " + TECH_DIR
+NOTE_DIR = ("trusted: TLC, the Json module, the independent directory walker (boxo merkledag / go-codec-dagpb + gogo unixfs_pb), "
+            "murmur3 itself; names are mined so that hashes collide for 1..3 levels at every fanout")
+RULE_DIR = ("cases are (builder, fanout, mined 6-name universe, entry subset, insertion order or boxo mutation history, fault set, "
+            "operation script); all 64 subsets x sampled/all orders x fanouts are enumerated, histories are those TLC explored "
+            "in HamtRef, random cases derive from VERIF_SEED; non-trivial = the script performs at least one API call; "
+            "distinct = distinct case ids")
+RULE_MIX = RULE_FILE + " | " + RULE_DIR
+
+F_RANGE = ("range", ["-maxn", "8", "-wmax", "3"], ["-maxn", "14", "-wmax", "4"])
+F_SEQ = ("seq", ["-maxn", "8", "-wmax", "3"], ["-maxn", "24", "-wmax", "4"])
+F_WRITERS = ("writers", ["-maxn", "6", "-wmax", "3"], ["-maxn", "12", "-wmax", "4"])
+F_FAULT = ("fault", ["-maxn", "8", "-wmax", "3"], ["-maxn", "16", "-wmax", "4"])
+F_PRELOAD = ("preload", ["-maxn", "9", "-wmax", "4"], ["-maxn", "20", "-wmax", "4"])
+
 PLANS = {
     "C01": P(run_C01, "TLC checks on FileBuild/FileRead that every layout flattens to chunks 1..n and that the reader machine "
              "returns the content; the real builder+readers are run on every shape n<=9..30 x w<=5, three open modes, eight "
              "buffer sizes, six reference-writer modes and seeded random contents/chunkers, and each recorded call is "
              "validated by TLC against the io.Reader contract (Inv_C01_*)."),
+    "C02": P(run_C02, "TLC checks on HamtBuild that for every subset of a 6-name universe with engineered 1/2/3-level hash "
+             "collisions and every insertion order the trie is the canonical trie and behaves as the map; the same subsets "
+             "and orders are built for real at fanouts 8..1024 (names mined to collide) by all three directory builders, "
+             "reified and exercised (all four lookup entry points for members and non-members, both iterators, length); "
+             "TLC validates every recorded call against the supplied entry set (Inv_C02_*).",
+             rule=RULE_DIR, technique=TECH_DIR, note=NOTE_DIR),
     "C04": P(run_C04, "TLC enumerates every Seek/Read history (boundary offsets incl. negative, three whences, two readers) of "
              "the FileRead machine to depth 2 (thorough: 3) on single-block, wrapped and multi-level files and checks the "
              "io.ReadSeeker invariants and reader independence on the model; each history is replayed on real readers and "
              "the recorded trace validated by TLC (Inv_C04_*), plus long random histories."),
-    "C05": P(run_file_simple("C05", [("range", ["-maxn", "8", "-wmax", "3"], ["-maxn", "14", "-wmax", "4"]),
-                                     ("seq", ["-maxn", "8", "-wmax", "3"], ["-maxn", "20", "-wmax", "4"]),
-                                     ("writers", ["-maxn", "6", "-wmax", "3"], ["-maxn", "12", "-wmax", "4"])]),
-             "TLC proves on FileRead that the lazy cursor algorithm only loads blocks whose span intersects the requested "
-             "range; on the real code every range [a,b) of every enumerated shape is read via Seek+ReadFull and each "
-             "recorded load is checked by TLC against Needed(a,b) computed from the independent walker's block table."),
-    "C12": P(run_file_simple("C12", [("fault", ["-maxn", "8", "-wmax", "3"], ["-maxn", "16", "-wmax", "4"])]),
+    "C05": P(run_mixed("C05", [F_RANGE, F_SEQ, F_WRITERS], [("sets", "8,256", FAN_T), ("faults", "8", "8,16,256"), ("boxo", "8,256", FAN_T)]),
+             "TLC proves on FileRead/HamtRead that the lazy algorithms only load blocks whose span intersects the requested "
+             "range / shards on the name's digit path; on the real code every range [a,b) of every enumerated file shape and "
+             "every member and non-member lookup of every enumerated HAMT is run, and each recorded load is checked by TLC "
+             "against Needed(a,b) / the digit path computed from the independent walker's tables; no directory operation "
+             "may request an entry's own block.", rule=RULE_MIX, technique=TECH_MIX),
+    "C08": P(run_C08, "TLC checks that the builder's trie and every trie reachable in the reference HAMT under Set/Remove/"
+             "Reload histories (depth 4, thorough 5, 5-name colliding universe) is the canonical trie of its entry set; every "
+             "subset at every fanout is built with this library and with boxo's HAMT and compared (root CID and size), the "
+             "stored structure is checked by TLC to be Canon(entries); every TLC history is applied to a real boxo shard and "
+             "the result read back with this library (lookups, iteration, length) and validated against the model's set.",
+             rule=RULE_DIR, technique=TECH_DIR, note=NOTE_DIR + "; CID equality itself is compared in Go"),
+    "C12": P(run_mixed("C12", [F_FAULT], [("faults", "8,16", "8,16,256,1024")]),
              "exhaustive single-block unavailability and k-th-load failure (both error kinds) on every enumerated file "
-             "shape; TLC validates that reads return exactly the bytes before the missing span, then the load error, "
-             "never EOF (Inv_C12_*); the model-level counterpart is checked on FileRead with a Missing set.",
-             ),
-    "C20": P(run_file_simple("C20", [("seq", ["-maxn", "9", "-wmax", "4"], ["-maxn", "30", "-wmax", "5"]),
-                                     ("preload", ["-maxn", "9", "-wmax", "4"], ["-maxn", "20", "-wmax", "4"])]),
-             "first-request order of cold sequential reads and preloads of every enumerated shape is validated by TLC to "
-             "be a prefix of (and on completion equal to) the pre-order of the walker's block table (Inv_C20_*)."),
+             "shape and HAMT; TLC validates that reads return exactly the bytes before the missing span and then the load "
+             "error, never EOF; that lookups crossing a missing shard report the error, not not-found; that iteration "
+             "terminates, yields exactly the reachable entries once and one error per missing shard met (Inv_C12_*).",
+             rule=RULE_MIX, technique=TECH_MIX),
+    "C15": P(run_C15, "every link list up to length 3 (thorough 4) over names {absent, empty, a, b} with distinguishable targets, "
+             "as a UnixFS directory and as a generic link map, plus every enumerated own- and reference-written HAMT: "
+             "iteration count = Length, over-read errors, every key resolves to the first link yielded under it, unknown keys "
+             "are not found, all four lookup entry points agree - validated by TLC (Inv_C15_*).",
+             rule=RULE_DIR, technique=TECH_DIR, note=NOTE_DIR),
+    "C20": P(run_mixed("C20", [F_SEQ, F_PRELOAD], [("seq", "8,16", FAN_T)]),
+             "first-request order of cold sequential reads / preloads of every enumerated file shape and of cold iteration, "
+             "length and preload of every enumerated HAMT (own and reference-written) is validated by TLC to be a prefix of "
+             "- and on completion equal to - the pre-order of the walker's block/shard table (Inv_C20_*).",
+             rule=RULE_MIX, technique=TECH_MIX),
+    "C06": P(run_mixed("C06", [F_PRELOAD], [("preload", "8,16", "8,16,256,1024")]),
+             "for every enumerated file shape and HAMT: the preload reifier is run with no fault and with each single block "
+             "of the entity unavailable; TLC validates loads = all blocks of the entity, none of the entries' blocks, and an "
+             "error whenever a block is missing (Inv_C06_*).", rule=RULE_MIX, technique=TECH_MIX),
 }
